@@ -494,7 +494,7 @@ pub fn run_one_th(seed: u64, rt: &tokio::runtime::Runtime) -> Outcome {
     o.desc = desc;
     // children killed by the subject's exit finish asynchronously on other workers: a leak is only
     // reported if it persists (a true leak is permanent, so waiting cannot hide it)
-    crate::th::wait_until(10_000, || vt::global_leaks().is_empty());
+    let _ = crate::th::settle_leaks();
     for l in vt::global_leaks() {
         o.violations.push(("leak".into(), l, "leak".into()));
     }
